@@ -562,3 +562,34 @@ class HexOf(L.SymVal):
 
     def sym_type(self):
         return str
+
+
+import weakref as _weakref
+
+
+@nmodel(_weakref.ref)
+def m_weakref(ctx, args, kw):
+    return WeakRef(args[0])
+
+
+m_weakref.always = True
+
+
+class WeakRef(L.SymVal):
+    """weakref.ref(obj): calling it yields the referent or None - the referent may have been collected
+    whenever no strong reference is known to the engine, so both outcomes are explored"""
+    def __init__(self, target):
+        self.target = target
+        self._n = 0
+
+    def sym_call(self, ctx, args, kwargs):
+        self._n += 1
+        alive = z3.Bool(f"weakref_alive!{id(self) % 100000}!{ctx.sink.counter}")
+        ctx.sink.counter += 1
+        return self.target if ctx.branch(alive) else None
+
+    def sym_is_none(self):
+        return False
+
+    def materialize(self):
+        return _weakref.ref(self.target_real)
